@@ -114,10 +114,17 @@ Section Check.
   (* BlochSphereRotation.__eq__ *)
   Definition bsr_eq (q1 : Z) (ax1 : axis3 T) (a1 p1 : T) (q2 : Z) (ax2 : axis3 T) (a2 p2 : T) : bool :=
     if negb (Z.eqb q1 q2) then false
-    else if nltb N (atol N) (nabs N (nsub N p1 p2)) then false
-    else if close_axis N ax1 ax2 then nltb N (nabs N (nsub N a1 a2)) (atol N)
-    else if close_axis N ax1 (neg_axis N ax2) then nltb N (nabs N (nadd N a1 a2)) (atol N)
-    else false.
+    else
+      let same_phase := nleb N (nabs N (nsub N p1 p2)) (atol N) in
+      if nltb N (nabs N a1) (atol N) && nltb N (nabs N a2) (atol N) then same_phase
+      else if close_axis N ax1 ax2 then same_phase && nltb N (nabs N (nsub N a1 a2)) (atol N)
+      else if close_axis N ax1 (neg_axis N ax2) then
+        if same_phase && nltb N (nabs N (nadd N a1 a2)) (atol N) then true
+        else
+          nleb N (nabs N (nsub N (nabs N (nsub N p1 p2)) (pi N))) (atol N) &&
+          (nltb N (nabs N (nsub N (nabs N a1) (pi N))) (atol N) &&
+           nltb N (nabs N (nsub N (nabs N a2) (pi N))) (atol N))
+      else false.
 
   (* g1 == g2 as Python dispatches it on the class of g1 *)
   Definition gate_eq (g1 g2 : gate T) : result bool :=
